@@ -16,6 +16,8 @@ target.
 -/
 import Complgen.Spec.Complete
 import Complgen.Proofs.Offer
+import Complgen.Proofs.TemplateDfa
+import Complgen.Proofs.TemplateDfaAll
 namespace Complgen.Props.C01
 open Complgen Complgen.Spec.Complete
 
@@ -48,5 +50,77 @@ theorem template_offers_extend (S : BashRt.Script) (q : Nat) (prefix_ : String) 
 theorem template_unmatched_silent (S : BashRt.Script) (start : Nat) (words : List String) (prefix_ wb : String)
     (h : BashRt.walk S start words = .unmatched) : BashRt.complete S start words prefix_ wb = none := by
   simp [BashRt.complete, h]
+
+open Complgen.Tables Complgen.TemplateDfa in
+/-- **The emitted bash script interprets the automaton — the literal part** (`Proofs/TemplateDfa.lean`,
+over the model of the template `Model/BashRt.lean` running on the model of the emitted tables
+`Model/Tables.lean`, both compared with the real bash / the real script on every run): for a `Dfa`
+whose states reachable through literals carry only literal transitions and never two literals with
+one text and different targets (C09's demand), the completion function returns code 1 exactly when
+the earlier words spell no path of literal transitions from the start state; otherwise COMPREPLY
+is, as a set, the stripped `text ++ " "` of the literal transitions out of the state reached that
+extend the typed prefix at the least `||` level that has any. -/
+theorem template_interprets_literals (d : Dfa) (out : Nat → List String)
+    (honly : ∀ r, LitReach d.main d.main.start r → LitOnlyAt d.main r)
+    (hdet : ∀ r, LitReach d.main d.main.start r → WordDetAt d.main r)
+    (ws : List String) (p wb : String) :
+    (BashRt.complete (ofDfa d out) d.main.start ws p wb = none ↔ ¬ ∃ q, LitPath d.main d.main.start ws q) ∧
+    ∀ q, LitPath d.main d.main.start ws q →
+      ∃ cs, BashRt.complete (ofDfa d out) d.main.start ws p wb = some cs ∧
+        ∀ c, c ∈ cs ↔ ∃ m, Cand d.main q p m ∧ c = strip p wb m :=
+  ofDfa_complete_literals d out honly hdet ws p wb
+
+open Complgen.Tables Complgen.TemplateDfa in
+/-- a typed word that is a literal expected at the current state moves to that literal's target — whatever
+else is expected there (the literal has priority) — when the state has no two literals with that
+text and different targets -/
+theorem template_reads_literal (d : Dfa) (out : Nat → List String) {q : Nat} {w : String}
+    {dsc : Option String} {lvl t : Nat}
+    (he : HasEdge d.main q (.lit w dsc lvl) t) (hdet : WordDetAt d.main q) :
+    (BashRt.readWord (ofDfa d out) q w).1 = some t :=
+  ofDfa_readWord_literal d out he hdet
+
+open Complgen.Tables Complgen.TemplateDfa in
+/-- that hypothesis is needed: with `a "x"` and `a "y"` leading to different states no script can follow
+both (the same finding as C09's, seen from the template) -/
+theorem template_needs_word_determinism (S : BashRt.Script) :
+    ¬ ∀ (dsc : Option String) (lvl t : Nat),
+      HasEdge cexWord 0 (.lit "a" dsc lvl) t → (BashRt.readWord S 0 "a").1 = some t :=
+  readWord_literal_needs_wordDet' S
+
+open Complgen.Tables Complgen.TemplateDfa Complgen.TemplateDfaAll in
+/-- **The emitted bash script interprets the automaton — every kind of item** (`Proofs/TemplateDfaAll.lean`):
+at arbitrary states.  A complete earlier word is read by priority — a literal with that text; else a
+within-word automaton expected here whose function matches the word; else a command expected here
+that prints the word; else the any-word transition (`DStep`); the walk over the earlier words is the
+run of that step relation, with the last-word heuristic as the model has it (`DRun`); and when every
+reachable state has one reading per word, the completion function returns code 1 exactly when that
+run fails, and otherwise COMPREPLY is, as a set, the stripped candidates — literals (text + blank),
+completions inside a word, output lines of commands, all extending the typed prefix — of the least
+`||` level that has any, at the state the run ends in.  (The within-word matcher itself stays
+abstract here; C12's theorems are about it.) -/
+theorem template_interprets_automaton (d : Dfa) (out : Nat → List String)
+    (hdet : ∀ q, DReach d out d.main.start q → ∀ w, DStepDetAt d out q w)
+    (ws : List String) (p wb : String) :
+    (BashRt.complete (ofDfa d out) d.main.start ws p wb = none ↔ DRun d out d.main.start ws .unmatched) ∧
+    ∀ q, DRun d out d.main.start ws (.state q) →
+      ∃ cs, BashRt.complete (ofDfa d out) d.main.start ws p wb = some cs ∧
+        ∀ c, c ∈ cs ↔ ∃ m, DOffered d out q p m ∧ c = strip p wb m :=
+  ofDfa_complete_spec d out hdet ws p wb
+
+open Complgen.Tables Complgen.TemplateDfaAll in
+/-- without any determinism hypothesis: what the script does on the earlier words is always *a* run of
+the automaton by that priority rule -/
+theorem template_walk_is_a_run (d : Dfa) (out : Nat → List String) (ws : List String) (q0 : Nat) :
+    DRun d out q0 ws (BashRt.walk (ofDfa d out) q0 ws) :=
+  ofDfa_walk_sound d out ws q0
+
+open Complgen.TemplateDfaAll in
+/-- bash's `readarray -t candidates`, which overwrites the accumulated literal candidates after a level
+with commands, never changes what is offered: the loop with and without the overwriting give the
+same list, for all tables -/
+theorem template_overwritten_array_harmless (S : BashRt.Script) (q : Nat) (p : String) :
+    offerAcc S q p = BashRt.offer S q p :=
+  offerAcc_eq_offer S q p
 
 end Complgen.Props.C01
